@@ -191,8 +191,48 @@ impl GroupDyn for Guarded {
     }
 }
 
+/// how the group is constructed (all of them public API)
+#[derive(Clone, Debug)]
+pub enum Ctor {
+    /// `new()` (30 %) / `default()`
+    New,
+    Default,
+    /// `with_capacity(k)` — observably `new()` followed by `reserve(k)`
+    WithCapacity(usize),
+    /// `from_iter(children)` — FutureGroup: `new()` + `extend`; StreamGroup: `with_capacity(len)` + inserts
+    FromIter(Vec<usize>),
+}
+
 pub fn build_group(stream: bool, keyed: bool) -> Box<dyn GroupDyn> {
-    Box::new(Guarded { inner: build_group_raw(stream, keyed), poisoned: false })
+    build_group_with(stream, keyed, Ctor::New)
+}
+
+pub fn build_group_with(stream: bool, keyed: bool, ctor: Ctor) -> Box<dyn GroupDyn> {
+    let inner: Box<dyn GroupDyn> = match (stream, ctor) {
+        (_, Ctor::New) => build_group_raw(stream, keyed),
+        (false, Ctor::Default) => fgroup(FutureGroup::default(), keyed),
+        (true, Ctor::Default) => sgroup(StreamGroup::new(), keyed),
+        (false, Ctor::WithCapacity(k)) => fgroup(FutureGroup::with_capacity(k), keyed),
+        (true, Ctor::WithCapacity(k)) => sgroup(StreamGroup::with_capacity(k), keyed),
+        (false, Ctor::FromIter(cs)) => fgroup(cs.iter().map(|c| SFut(*c)).collect::<FutureGroup<SFut>>(), keyed),
+        (true, Ctor::FromIter(cs)) => sgroup(cs.iter().map(|c| SStream(*c)).collect::<StreamGroup<SStream>>(), keyed),
+    };
+    Box::new(Guarded { inner, poisoned: false })
+}
+
+fn fgroup(g: FutureGroup<SFut>, keyed: bool) -> Box<dyn GroupDyn> {
+    if keyed {
+        Box::new(FKeyed { g: g.keyed(), keys: vec![] })
+    } else {
+        Box::new(FPlain { g, keys: vec![] })
+    }
+}
+fn sgroup(g: StreamGroup<SStream>, keyed: bool) -> Box<dyn GroupDyn> {
+    if keyed {
+        Box::new(SKeyed { g: g.keyed(), keys: vec![] })
+    } else {
+        Box::new(SPlain { g, keys: vec![] })
+    }
 }
 
 fn build_group_raw(stream: bool, keyed: bool) -> Box<dyn GroupDyn> {
